@@ -259,4 +259,7 @@ Proof.
     + cbn [orb] in G4. apply N.eqb_eq in G4. assert (items = []) by (destruct items; [reflexivity|rewrite lenN_cons in G4; lia]). subst items.
       replace (2 <=? version) with false by (symmetry; apply N.leb_gt; apply N.leb_gt in E1; lia).
       lens. cbn [map combine flat_map]. change (lenN (@nil N)) with 0. lia.
+  - (* data *) lens. lia.
+  - (* mime *) cbn [size_leaf]. destruct lacks; lens; lia.
+  - (* wvtt *) lens. lia.
 Qed.
